@@ -89,7 +89,7 @@ CHECKS = {
          "timestamps hours away from the no_gc_days boundary (the code reads the wall clock); record size at most half the data-file limit",
          "inventory + hook-log monitor with reference range oracle; hook-based overlap detector with park/release schedules; race detector"),
  "C06": ("fault_enumeration",
-         "Every file-system mutation boundary of generated histories becomes a crash state: a hook copies the bucket directory before and after every hooked mutation under one mutex (plus torn variants of every data write at each 256-byte boundary and 3 unaligned cuts); a fresh process opens each snapshot and must serve, per key, exactly the newest intact record an independent scanner finds in the snapshot's data files, or refuse to start only when a data file ends in a partial record. Stage 2: every 12th served snapshot (5th in thorough) and every snapshot whose index files describe more than the data files hold is continued - the recovered store takes further writes and flushes with the snapshot hook still active (a second kill at every mutation of recovery, continuation and clean Close), is closed and a copy reopened; second-level snapshots are judged by the same oracle, the reopened copy by what recovery served plus the acknowledged stage-2 writes.",
+         "Every file-system mutation boundary of generated histories becomes a crash state: a hook copies the bucket directory before and after every hooked mutation under one mutex (plus torn variants of every data write at each 256-byte boundary and 3 unaligned cuts); a fresh process opens each snapshot and must serve, per key, exactly the newest intact record an independent scanner finds in the snapshot's data files, or refuse to start only when a data file ends in a partial record. Stage 2: every 14th served snapshot (6th in thorough) and every snapshot whose index files describe more than the data files hold is continued - the recovered store takes further writes and flushes with the snapshot hook still active (a second kill at every mutation of recovery, continuation and clean Close), is closed and a copy reopened; second-level snapshots are judged by the same oracle, the reopened copy by what recovery served plus the acknowledged stage-2 writes.",
          "DESIGN.md sections 4 (C06) and 15",
          "crash model SIGKILL = prefix of completed syscalls (no reordering, no power loss); writes to *.tmp files are not hooked; Go QuickLZ decoder used to read server-compressed records from disk",
          "crash-point enumeration by directory snapshots at hooked FS mutations + recovery in a fresh process + reference-scanner oracle"),
